@@ -1826,8 +1826,10 @@ def oracle(ctx, volume=1):
                 "followed by a byte-level snapshot comparison of the whole pool; non-trivial = the operation returned a value "
                 "(did not raise in both worlds); distinct by (history, step, operation, operands)")
     ctx.partial += [
-        {"theorem": "gen_reuse_refines_fresh / fast_reuse_refines_fresh",
-         "missing": "hypothesis Handled: a weighting mode without a branch in _set_weights_by_mode keeps the earlier weights (unhandled_mode_keeps_weights, witness reuse_refines_fresh_unhandled_fails)"},
+        {"theorem": "(no Lean theorem) copies independent / matrix bases unmodifiable / queries, conversions, projections, compose, tensor leave operands alone and give fresh-object results / interleavings of the machines on a shared pool",
+         "missing": "carried by the history fuzzer (fresh-world differential + byte snapshots) and the generated-table obligations gen_writers_declared, gen_inplace_declared, gen_param_writes_declared only"},
+        {"theorem": "fast_obs_eq_gen", "missing": "equality of the attributes read, not of the two value formulas (C12 proves fast = generic on equal attributes)"},
+        {"theorem": "projEq_arg_unchanged_of_copy / gen_projEq_arg_unchanged", "missing": "conditional on the aliasing bits read off convert_var_to_hss by the translator (intra-procedural may-analysis); projEq_arg_overwritten_of_view is the statement for the other value"},
         {"theorem": "algo_reuse_eq_fresh_iff", "missing": "nothing (exact characterisation); the property itself is false on the tree for histories in which the requested projection changes (D10, open)"},
     ]
 
@@ -1921,9 +1923,8 @@ def _correspondence(ctx):
             dw = _invcov(data, mode) if mode in WEIGHTED[1:] + ("unbiased_inverse_covariance",) else None
             A, b = qt.calc_matA(), qt.calc_vecB()
             qv = np.concatenate([p for _, p in data])
-            toks.append("|".join([{"identity": "i", "custom": "c", "inverse_sample_covariance": "v",
-                                   "inverse_unbiased_covariance": "v", "unbiased_inverse_covariance": "v"}[mode],
-                                  _wtxt(ow), _wtxt(dw), "1" if grad else "0", qlist(A.flatten()), qlist(b), qlist(qv)]))
+            # the mode string itself goes to the driver, which resolves it through the regenerated branch table
+            toks.append("|".join([mode, _wtxt(ow), _wtxt(dw), "1" if grad else "0", qlist(A.flatten()), qlist(b), qlist(qv)]))
             vals.append(v)
             modeseq.append(mode)
         i = drv.ask("loss", "fast" if fast else "gen", 2, nvar, qlist(var), _wtxt(w0), *toks)
